@@ -307,18 +307,33 @@ def hostile_stream(r, proto):
             kinds.append("mutated-handshake")
     msgs = [cw.msg(0xE1)] if r.random() < 0.8 else []
     msgs += c05.gen_stream_messages(r, "server")
-    for m in msgs:
+    # (a CoAP message inside a WebSocket frame has no length field of its own: RFC 8323 4.2)
+    enc = "ws" if proto == "ws" else "tcp"
+    # a share of the peers behave for a while (valid messages in valid frames, which the random
+    # reads still cut anywhere) before they turn hostile: state built up by then is at stake
+    calm = r.randint(2, 7) if r.random() < 0.4 else 0
+    if calm and proto == "ws" and "valid-handshake" not in kinds:
+        parts[:] = [c05.ws_handshake(r)]
+        kinds[:] = ["valid-handshake"]
+    for i, m in enumerate(msgs):
         y = r.random()
+        if i < calm:
+            b = cw.encode(m, enc)
+            kinds.append("valid")
+            if proto == "ws":
+                b = cw.ws_frame(b, mask=bytes(r.getrandbits(8) for _ in range(4)))
+            parts.append(b)
+            continue
         if y < 0.5:
-            b = cw.encode(m, "tcp")
+            b = cw.encode(m, enc)
             k = "valid"
         elif y < 0.8:
-            k, b = gen.mutate(r, m, "tcp")
+            k, b = gen.mutate(r, m, enc)
         elif y < 0.9:
-            b = gen.blind(r, "tcp", maxlen=r.choice([8, 64, 400]))
+            b = gen.blind(r, enc, maxlen=r.choice([8, 64, 400]))
             k = "blind"
         else:
-            b = bytearray(cw.encode(m, "tcp"))
+            b = bytearray(cw.encode(m, enc))
             if b:
                 b[0] = (r.choice([13, 14, 15]) << 4) | (b[0] & 15)     # lying length nibble
             b = bytes(b)
